@@ -197,6 +197,10 @@ def install_dump(path):
 def main():
     argv = sys.argv[1:]
     entry = argv[0]
+    if os.environ.get("VMON_COVERAGE"):
+        # planning aid (tools/coverage.py): which nbdime lines the launched command executes
+        from .worker import start_line_coverage
+        start_line_coverage("%s.launcher-%d" % (os.environ["VMON_COVERAGE"], os.getpid()))
     spec = {}
     rest = argv[1:]
     if rest and rest[0] == "--vmon-spec":
